@@ -1,9 +1,236 @@
-(* C18 / C19 (NFSv4.1): the property theorems, and nothing else. *)
-From VF Require Import Nfs41.Model Nfs41.Dump Nfs41.Spec Nfs41.Proofs.
+(* C18 / C19 (NFSv4.1): the property theorems, and nothing else.
+
+   Model: Model.v (one event = one critical section of nfs41_program.go;
+   [run] executes an arbitrary list of events, i.e. an arbitrary
+   interleaving of compounds of any number of clients, with arbitrary
+   file system results and clock advances).  [balance h b outs] = opens
+   minus closes of access bit [b] seen by leaf [h]; [holders st h b] =
+   open-owner files on [h] whose share count for [b] is positive + leaves
+   opened by requests in flight.  The predicates evaluated on the
+   implementation are in Spec.v. *)
+From VF Require Import Nfs41.Proofs.
 Open Scope N_scope.
 
-Example demo_reaches_open_lock_and_waiter :
+(* ==== C18: open and lock state is accounted for and fully reclaimed ======== *)
+
+(* At every point of every history the leaf is open, per access bit,
+   exactly as often as there are holders: closes never exceed opens, no
+   close while anything still entitles to the access, nothing left open. *)
+Theorem open_close_balanced : forall cfg c0 evs h b,
+  balance h b (snd (run (init cfg c0) evs)) = holders (fst (run (init cfg c0) evs)) h b.
+Proof. exact balance_is_holders. Qed.
+Print Assumptions open_close_balanced.
+
+Theorem closes_never_exceed_opens : forall cfg c0 evs h b,
+  (0 <= balance h b (outputs cfg c0 evs))%Z.
+Proof. exact closes_le_opens. Qed.
+Print Assumptions closes_never_exceed_opens.
+
+(* shareCount = own share reservation + lock-owner files + I/O in flight. *)
+Theorem share_count_is_exact : forall cfg c0 evs c o b,
+  In c (st_clients (reachable cfg c0 evs)) -> In o (c_oofs c) ->
+  Z.of_N (cnt b o) = (b2z (of_live o && bit b (of_share o)) + lofs_bits b (of_lofs o)
+                      + clones (reachable cfg c0 evs) (c_id c) (of_other o) b)%Z.
+Proof. exact share_count_exact. Qed.
+Print Assumptions share_count_is_exact.
+
+Theorem no_close_while_entitled : forall cfg c0 evs c o b,
+  In c (st_clients (reachable cfg c0 evs)) -> In o (c_oofs c) ->
+  of_live o = true -> bit b (of_share o) = true ->
+  (1 <= balance (of_handle o) b (outputs cfg c0 evs))%Z.
+Proof. exact open_while_entitled. Qed.
+Print Assumptions no_close_while_entitled.
+
+Theorem no_close_while_lock_state : forall cfg c0 evs c o lf b,
+  In c (st_clients (reachable cfg c0 evs)) -> In o (c_oofs c) -> In lf (of_lofs o) ->
+  bit b (lf_share lf) = true ->
+  (1 <= balance (of_handle o) b (outputs cfg c0 evs))%Z.
+Proof. exact open_while_lock_state. Qed.
+Print Assumptions no_close_while_lock_state.
+
+Theorem no_close_while_io_in_flight : forall cfg c0 evs t h b,
+  In t (st_threads (reachable cfg c0 evs)) -> t_opens h b t = true ->
+  (1 <= balance h b (outputs cfg c0 evs))%Z.
+Proof. exact open_while_in_flight. Qed.
+Print Assumptions no_close_while_io_in_flight.
+
+(* Completely reclaimed: when no share count is positive any more (the
+   files were closed, their state freed, the client re-registered or
+   expired) and no request is in flight, every leaf is closed. *)
+Theorem everything_closed_when_nothing_held : forall cfg c0 evs,
+  (forall c o, In c (st_clients (reachable cfg c0 evs)) -> In o (c_oofs c) ->
+               of_readers o = 0 /\ of_writers o = 0) ->
+  st_threads (reachable cfg c0 evs) = [] ->
+  forall h b, balance h b (outputs cfg c0 evs) = 0%Z.
+Proof. exact all_closed_when_nothing_held. Qed.
+Print Assumptions everything_closed_when_nothing_held.
+
+Theorem no_records_no_open_leaf : forall cfg c0 evs,
+  st_clients (reachable cfg c0 evs) = [] -> st_threads (reachable cfg c0 evs) = [] ->
+  forall h b, balance h b (outputs cfg c0 evs) = 0%Z.
+Proof. exact no_state_all_closed. Qed.
+Print Assumptions no_records_no_open_leaf.
+
+(* The bookkeeping invariant itself (unique IDs, share counts, hold
+   counts = requests in flight, idle clients are not held, requests in
+   flight refer to existing clients and open-owner files). *)
+Theorem accounting_invariant : forall cfg c0 evs, full_inv (fst (run (init cfg c0) evs)).
+Proof. exact reachable_full_inv. Qed.
+Print Assumptions accounting_invariant.
+
+(* State IDs are honoured only for the client, the file handle and the
+   sequence number they were issued for. *)
+Theorem stateid_scope_open : forall c cfh s w o,
+  NoDup (map of_other (c_oofs c)) ->
+  get_oofs c cfh s w = (Some o, NFS4_OK) ->
+  In o (c_oofs c) /\ of_live o = true
+  /\ ((s = sid_current /\ f_other cfh = of_other o /\ (w = true -> f_seq cfh = of_seq o))
+      \/ (s_hi s = 0 /\ s_lo s = of_other o /\ fh_handle cfh = of_handle o
+          /\ (s_seq s = 0 \/ s_seq s = of_seq o))).
+Proof. exact open_stateid_scope. Qed.
+Print Assumptions stateid_scope_open.
+
+Theorem stateid_scope_lock : forall c cfh s o lf,
+  get_lofs c cfh s = (Some (o, lf), NFS4_OK) ->
+  In o (c_oofs c) /\ of_live o = true /\ In lf (of_lofs o)
+  /\ ((s = sid_current /\ f_other cfh = lf_other lf)
+      \/ (s_hi s = 0 /\ s_lo s = lf_other lf /\ fh_handle cfh = of_handle o
+          /\ (s_seq s = 0 \/ s_seq s = lf_seq lf))).
+Proof. exact lock_stateid_scope. Qed.
+Print Assumptions stateid_scope_lock.
+
+(* ==== C19: retransmitted requests execute once and get the same reply ====== *)
+
+(* Same slot + same sequence ID: the reply comes from the slot's cache,
+   nothing is executed, the state is the one enter() left ... *)
+Theorem replay_answered_from_cache : forall tid sess sl sq cache ops st st' outs ss s,
+  enter st = (st', outs) ->
+  find_session sess (st_sessions st') = Some ss ->
+  nth_error (ss_slots ss) (N.to_nat sl) = Some s ->
+  sq = sl_seq s ->
+  seq_begin tid sess sl sq cache ops st
+  = (st', outs ++ [OReply tid (replay_reply (sl_res s) ops)]).
+Proof. exact seq_begin_replay. Qed.
+Print Assumptions replay_answered_from_cache.
+
+(* ... and the cached reply of a compound that asked for caching (or is
+   short) is the reply it got the first time. *)
+Theorem replay_same_reply41 : forall cache res status ops,
+  (1 <= length res)%nat ->
+  Forall2 (fun r o => resop r = argop o) (tl res) (firstn (length (tl res)) ops) ->
+  (length (tl res) <= length ops)%nat ->
+  (status = NFS4_OK -> length (tl res) = length ops) ->
+  (cache = true \/ (length res < 2)%nat \/ (length res = 2%nat /\ status <> NFS4_OK)) ->
+  replay_reply (cached_reply cache res status) ops = mkReply status res.
+Proof. exact replay_of_cached. Qed.
+Print Assumptions replay_same_reply41.
+
+(* Without caching the retransmission is told so; it is still not executed. *)
+Theorem replay_uncached_not_reexecuted : forall r0 r1 rest status ops o otl,
+  ops = o :: otl -> resop r1 = argop o ->
+  (rest <> [] \/ status = NFS4_OK) ->
+  replay_reply (cached_reply false (r0 :: r1 :: rest) status) ops
+  = mkReply ERR_RETRY_UNCACHED_REP [r0; RStatus (resop r1) ERR_RETRY_UNCACHED_REP].
+Proof. exact replay_of_uncached. Qed.
+Print Assumptions replay_uncached_not_reexecuted.
+
+(* The end of a compound stores exactly that in its slot. *)
+Theorem misordered_no_effect : forall tid sess sl sq cache ops st st' outs ss s,
+  enter st = (st', outs) ->
+  find_session sess (st_sessions st') = Some ss ->
+  nth_error (ss_slots ss) (N.to_nat sl) = Some s ->
+  sq <> sl_seq s -> sq <> (sl_seq s + 1) mod u32 ->
+  seq_begin tid sess sl sq cache ops st
+  = (st', outs ++ [OReply tid (seq_error ERR_SEQ_MISORDERED)]).
+Proof. exact seq_begin_misordered. Qed.
+Print Assumptions misordered_no_effect.
+
+(* A retransmission whose operations differ from the original's is never
+   answered with the original's reply. *)
+Theorem false_retry_detected : forall r ops i res a,
+  nth_error (tl (cr_res r)) i = Some res -> nth_error ops i = Some a ->
+  resop res <> argop a -> resop res <> OP_ILLEGAL ->
+  replay_reply r ops = seq_error ERR_SEQ_FALSE_RETRY.
+Proof. exact false_retry_other_operation. Qed.
+Print Assumptions false_retry_detected.
+
+Theorem false_retry_detected_fewer_ops : forall r ops,
+  (length ops < length (tl (cr_res r)))%nat ->
+  replay_reply r ops = seq_error ERR_SEQ_FALSE_RETRY.
+Proof. exact false_retry_fewer_ops. Qed.
+Print Assumptions false_retry_detected_fewer_ops.
+
+Theorem false_retry_detected_other_length : forall r ops,
+  cr_status r = NFS4_OK -> length (tl (cr_res r)) <> length ops ->
+  replay_reply r ops = seq_error ERR_SEQ_FALSE_RETRY.
+Proof. exact false_retry_other_length. Qed.
+Print Assumptions false_retry_detected_other_length.
+
+(* In every reachable state a busy slot has its compound in flight (with
+   that slot and sequence ID), and compound identifiers are unique ... *)
+Theorem busy_slot_has_compound : forall cfg c0 evs, seq_inv (fst (run (init cfg c0) evs)).
+Proof. exact run_inv. Qed.
+Print Assumptions busy_slot_has_compound.
+
+(* ... so a duplicate that arrives meanwhile is registered with it: it is
+   neither answered, nor lost, nor executed (enabledness) ... *)
+Theorem inflight_duplicate_registered : forall cfg c0 evs st tid sess sl sq cache ops st1 outs ss s orig,
+  st = fst (run (init cfg c0) evs) ->
+  enter st = (st1, outs) ->
+  find_session sess (st_sessions st1) = Some ss ->
+  nth_error (ss_slots ss) (N.to_nat sl) = Some s ->
+  sl_busy s = Some orig -> sq = (sl_seq s + 1) mod u32 -> sq <> sl_seq s ->
+  exists t, find_thread orig (st_threads st1) = Some t /\ t_seq t = sq /\ t_sess t = sess /\ t_slot t = sl
+    /\ seq_begin tid sess sl sq cache ops st
+       = (set_threads st1 (upd_thread
+            (mkThread (t_id t) (t_sess t) (t_slot t) (t_seq t) (t_cache t) (t_client t) (t_ops t)
+                      (t_res t) (t_status t) (t_cfh t) (t_sfh t) (t_phase t) (t_waiters t ++ [tid]))
+            (st_threads st1)), outs).
+Proof. exact ProofsThreads.inflight_duplicate_registered. Qed.
+Print Assumptions inflight_duplicate_registered.
+
+(* ... and when the original completes, its result goes, unchanged, to the
+   original and to every waiter, once each; a compound with no operation
+   left completes at its next section (progress). *)
+Theorem inflight_duplicate_gets_result : forall t st st' outs,
+  enter st = (st', outs) ->
+  snd (seq_end t st)
+  = outs ++ OReply (t_id t) (mkReply (t_status t) (t_res t))
+       :: map (fun w => OReply w (mkReply (t_status t) (t_res t))) (t_waiters t).
+Proof. exact seq_end_delivers. Qed.
+Print Assumptions inflight_duplicate_gets_result.
+
+Theorem result_delivered_once : forall t st, find_thread (t_id t) (st_threads (fst (seq_end t st))) = None.
+Proof. exact seq_end_removes. Qed.
+Print Assumptions result_delivered_once.
+
+Theorem finished_compound_completes : forall tid orc st t,
+  find_thread tid (st_threads st) = Some t -> t_ops t = [] ->
+  section tid orc st = (fst (seq_end t st), snd (seq_end t st), FsNone).
+Proof. exact section_finishes. Qed.
+Print Assumptions finished_compound_completes.
+
+(* ==== non-vacuity ========================================================== *)
+Example demo_reaches_open_lock_io_and_waiter :
   let st := fst (run (init cfg0 1000) demo_events) in
-  length (st_pool st) = 1%nat /\ length (st_threads st) = 1%nat
-  /\ map t_waiters (st_threads st) = [[4]] /\ st_panic st = false.
+  length (st_pool st) = 1%nat
+  /\ map t_phase (st_threads st) = [PhIoReg 1 1 mR]
+  /\ map t_waiters (st_threads st) = [[4]]
+  /\ holders st 1 true = 1%Z /\ holders st 1 false = 1%Z
+  /\ st_panic st = false.
+Proof. vm_compute. repeat split; reflexivity. Qed.
+
+(* The predicates evaluated on the implementation hold of the model's own
+   observation of that state, and of the final state (everything closed,
+   every table empty). *)
+Example monitor_holds_on_demo :
+  let r := run (init cfg0 1000) demo_events in
+  p_inv 2000 false (obs_of (fst r) (snd r)) = ""%string.
+Proof. vm_compute. reflexivity. Qed.
+
+Example demo_end_leaves_nothing :
+  let r := run (init cfg0 1000) demo_events_end in
+  st_clients (fst r) = [] /\ st_sessions (fst r) = [] /\ st_pool (fst r) = [] /\ st_threads (fst r) = []
+  /\ balance 1 true (snd r) = 0%Z /\ balance 1 false (snd r) = 0%Z
+  /\ p_inv 2000 false (obs_of (fst r) (snd r)) = ""%string.
 Proof. vm_compute. repeat split; reflexivity. Qed.
